@@ -7,6 +7,7 @@ import (
 
 	"github.com/vulcand/oxy/v2/internal/holsterv4/clock"
 	"github.com/vulcand/oxy/v2/zzverif/simkit"
+	"github.com/vulcand/oxy/v2/zzverif/simrt"
 	"pgregory.net/rapid"
 )
 
@@ -21,6 +22,7 @@ const (
 	phPaced     = "exact-pacing"
 	phMixed     = "mixed-steps"
 	phIdle      = "idle-gap"
+	phConc      = "concurrent-arrivals"
 )
 
 func c03prop(r *simkit.Run) {
@@ -35,6 +37,11 @@ func c03prop(r *simkit.Run) {
 	defer unfreeze()
 	start := clock.Now()
 	lim := newTLim(rt, rates, capacity)
+	// requests arriving at once are served by concurrent tasks, interleaved at every lock operation of the limiter
+	sim := simrt.New(r.Chooser())
+	defer sim.Shutdown()
+	sim.Fine = true
+	concurrent := 0
 
 	admitted := make([][]admitEv, nsrc)
 	mb := minBurst(rates)
@@ -48,6 +55,16 @@ func c03prop(r *simkit.Run) {
 	opsLeft := rapid.IntRange(20, 400).Draw(rt, "ops")
 	var trace []string
 
+	var pendingKind, pendingMsg string
+	failf := func(kind, format string, args ...any) {
+		if sim.Current() != nil { // inside a task: report from the coordinator once the tasks are done
+			if pendingKind == "" {
+				pendingKind, pendingMsg = kind, fmt.Sprintf(format, args...)
+			}
+			return
+		}
+		r.Fail(kind, format, args...)
+	}
 	request := func(src int, amount int64) {
 		now := clock.Now().Sub(start)
 		res := lim.do(srcName(src), amount)
@@ -62,7 +79,7 @@ func c03prop(r *simkit.Run) {
 		case ansAdmit:
 			nAdm++
 			if amount > mb {
-				r.Fail("over-burst-admitted", "request of %d units admitted although a configured burst is %d (rates %v)", amount, mb, rates)
+				failf("over-burst-admitted", "request of %d units admitted although a configured burst is %d (rates %v)", amount, mb, rates)
 			}
 			// "busy past the entry lifetime": the source has been served continuously (no gap longer than two
 			// max periods) for longer than 10 max periods + 2s, whatever the exact lifetime is
@@ -79,10 +96,10 @@ func c03prop(r *simkit.Run) {
 		case ansError:
 			nErr++
 			if amount <= mb {
-				r.Fail("spurious-error", "request of %d units (<= every burst, rates %v) answered %d", amount, rates, res.status)
+				failf("spurious-error", "request of %d units (<= every burst, rates %v) answered %d", amount, rates, res.status)
 			}
 		default:
-			r.Fail("malformed-answer", "status %d handled=%v retry=%q", res.status, res.handled, res.retryHdr)
+			failf("malformed-answer", "status %d handled=%v retry=%q", res.status, res.handled, res.retryHdr)
 		}
 	}
 	drawAmount := func() int64 {
@@ -107,7 +124,32 @@ func c03prop(r *simkit.Run) {
 	for opsLeft > 0 {
 		src := rapid.IntRange(0, nsrc-1).Draw(rt, "src")
 		rate := rates[rapid.IntRange(0, len(rates)-1).Draw(rt, "phase-rate")]
-		switch rapid.SampledFrom([]string{phBurst, phSustained, phSustained, phPaced, phMixed, phMixed, phIdle}).Draw(rt, "phase") {
+		switch rapid.SampledFrom([]string{phBurst, phSustained, phSustained, phPaced, phMixed, phMixed, phIdle, phConc}).Draw(rt, "phase") {
+		case phConc:
+			// 2-4 requests in flight at the same instant (often of one source, also right after an idle gap that let its entry lapse)
+			k := rapid.IntRange(2, 4).Draw(rt, "conc-tasks")
+			same := rapid.Bool().Draw(rt, "conc-same-source")
+			for i := 0; i < k && opsLeft > 0; i++ {
+				s2 := src
+				if !same {
+					s2 = rapid.IntRange(0, nsrc-1).Draw(rt, "src")
+				}
+				amount := drawAmount()
+				sim.Spawn(fmt.Sprintf("conc%d", i), func() { request(s2, amount) })
+			}
+			sim.Quiesce()
+			for _, tk := range sim.Tasks() {
+				if tk.Panic != nil {
+					r.Fail("panic", "concurrent request panicked: %v\n%s", tk.Panic, tk.PanicSite)
+				}
+			}
+			if sim.Deadlocked() {
+				r.Fail("deadlock", "concurrent requests deadlocked")
+			}
+			if pendingKind != "" {
+				r.Fail(pendingKind, "%s", pendingMsg)
+			}
+			concurrent++
 		case phBurst:
 			n := rapid.IntRange(1, int(min64(3*rate.burst+3, 60))).Draw(rt, "n")
 			for i := 0; i < n && opsLeft > 0; i++ {
@@ -186,6 +228,9 @@ func c03prop(r *simkit.Run) {
 	if len(rates) > 1 {
 		r.Probe("multi-rate")
 	}
+	r.ProbeN("concurrent-arrival-phases", concurrent)
+	r.FromSim(sim)
+	r.SetDigest(uint64(h))
 	r.Sample(func() any {
 		return map[string]any{"rates": fmt.Sprint(rates), "sources": nsrc, "capacity": capacity, "admitted": nAdm, "rejected": nRej, "errors": nErr,
 			"sim_span": clock.Now().Sub(start).String(), "first_ops": trace}
